@@ -89,6 +89,7 @@ type hist struct {
 	looseBox, looseEnv         geom.Bounds   // that box and the true envelope of its subtree
 	palette                    []geom.Bounds // when non-empty most new objects take one of these few boxes
 	scale, offset              float64       // every X is (grid value + offset) * scale; scale is a power of two (1, 2^-570 or 2^1018 with offset 33)
+	steer                      bool          // deletes are aimed, with the help of the hooked snapshot, at leaves under a chain of minimally filled nodes
 	sy, oy                     float64       // the same for Y (equal to scale, offset, or 1, 0 when only the X axis is at the end of the range)
 }
 
@@ -234,6 +235,55 @@ func (h *hist) delete(s stored, present bool) {
 		}
 	}
 	h.afterOp()
+}
+
+// steeredDelete looks, in the hooked snapshot, for a leaf that is minimally filled and hangs
+// under the longest chain of minimally filled ancestors (the root excluded), and deletes one of
+// its objects: the delete then underflows that many consecutive levels at once and re-inserts
+// their orphans. Reports the chain length (0: no such leaf).
+func (h *hist) steeredDelete() int {
+	root := h.tree.VerifSnapshot()
+	if len(root.Boxes) < h.max && h.r.Chance(0.8) {
+		// the re-insertions are most interesting when they can split the root: fill it first
+		return -1
+	}
+	best, bestLen, bestFull := (*rtree.VerifNode)(nil), 0, false
+	var rec func(n *rtree.VerifNode, chain, depth int, isRoot bool)
+	rec = func(n *rtree.VerifNode, chain, depth int, isRoot bool) {
+		if !isRoot && len(n.Boxes) == h.min {
+			chain++
+		} else {
+			chain = 0
+		}
+		if n.Leaf {
+			// a chain that reaches up to the child of the root counts most
+			full := chain >= 3 && chain == depth-1
+			if full && !bestFull || full == bestFull && (chain > bestLen || chain == bestLen && chain > 0 && h.r.Chance(0.3)) {
+				best, bestLen, bestFull = n, chain, full
+			}
+			return
+		}
+		for _, ch := range n.Children {
+			if ch != nil {
+				rec(ch, chain, depth+1, false)
+			}
+		}
+	}
+	rec(root, 0, 1, true)
+	if bestFull {
+		h.c.Count("steered.chain_from_leaf_to_child_of_root")
+	}
+	if best == nil || len(best.Objs) == 0 {
+		return 0
+	}
+	obj := best.Objs[h.r.Intn(len(best.Objs))]
+	for _, m := range h.model {
+		if m.obj == obj {
+			h.delete(m, true)
+			return bestLen
+		}
+	}
+	return 0
 }
 
 func inModel(model []stored, obj geom.Geom) bool {
@@ -538,6 +588,15 @@ func runHistory(c *core.Ctx, idx int, nn bool) {
 			h.min, h.max = pp[0], pp[1]
 		}
 	}
+	if !nn && h.scale == 1 && h.far == 0 && len(h.palette) == 0 && r.Chance(0.25) {
+		// deep trees of the smallest fan-outs, long histories, deletes aimed at chains of minimally
+		// filled nodes: several levels underflow in one Delete and their orphans are re-inserted
+		// (with splits up to the root) while the tree is being condensed
+		h.steer = true
+		pp = [][2]int{{2, 4}, {2, 4}, {2, 4}, {2, 5}, {3, 6}}[r.Intn(5)]
+		h.min, h.max = pp[0], pp[1]
+		c.Count("hist.steered_deletes")
+	}
 	h.tree = rtree.NewTree(h.min, h.max)
 	h.hash.Int(h.min).Int(h.max)
 	c.Count(fmt.Sprintf("params.%d_%d", h.min, h.max))
@@ -548,6 +607,9 @@ func runHistory(c *core.Ctx, idx int, nn bool) {
 	if nn {
 		budget = r.IntRange(20, 300)
 	}
+	if h.steer {
+		budget = r.IntRange(800, 2000)
+	}
 	ops := 0
 	step := func() bool { ops++; return !h.failed && ops < budget }
 	phases := 0
@@ -556,6 +618,19 @@ func runHistory(c *core.Ctx, idx int, nn bool) {
 		pick := r.Intn(9)
 		if h.max >= 32 && r.Chance(0.25) {
 			pick = 8
+		}
+		if h.steer {
+			// keep 60..160 objects; most of the time aimed deletes, each followed by an insert or two
+			switch {
+			case len(h.model) < 60:
+				pick = 6
+			case len(h.model) > 160:
+				pick = 5
+			case r.Chance(0.7):
+				pick = 9
+			default:
+				pick = []int{0, 2, 2, 7}[r.Intn(4)]
+			}
 		}
 		switch pick {
 		case 8: // concentric boxes stored outside-in (each new box strictly inside all earlier ones), then their common centre as a point
@@ -589,6 +664,24 @@ func runHistory(c *core.Ctx, idx int, nn bool) {
 				h.insert(stored{obj: p, box: geom.Bounds{Min: p, Max: p}, id: h.nextID})
 			}
 			h.c.Count("hist.concentric_outside_in")
+		case 9: // aimed deletes
+			for k := r.IntRange(1, 6); k > 0 && step(); k-- {
+				switch n := h.steeredDelete(); {
+				case n >= 3:
+					c.Count("steered.delete_underflowing>=3_levels")
+				case n == 2:
+					c.Count("steered.delete_underflowing_2_levels")
+				case n == 0:
+					if len(h.model) > 0 {
+						h.delete(h.model[r.Intn(len(h.model))], true)
+					}
+				case n < 0:
+					h.insert(h.newObj())
+				}
+				if r.Bool() && step() {
+					h.insert(h.newObj())
+				}
+			}
 		case 0: // grow
 			n := r.IntRange(1, 3*h.max)
 			for i := 0; i < n && step(); i++ {
